@@ -40,7 +40,7 @@ EnvelopeFails(e) ==
     \o Tag(e.unwrap_err = "" /\ e.unwrap = e.key /\ UnwrapOK(e, "unwrap") /\ UnwrapOK(e, "tampered") /\ UnwrapOK(e, "wrongkek")
            /\ UnwrapOK(e, "strayed") /\ UnwrapOK(e, "cut"), "C17.unwrap")
 
-StructFails(e) == Tag(e.err = "" /\ "back" \in DOMAIN e /\ e.back = e.doc, "C17.struct")
+StructFails(e) == Tag(e.err = "" /\ "back" \in DOMAIN e /\ e.back = e.doc /\ "docv" \in DOMAIN e /\ e.docv = e.doc, "C17.struct")
 
 \* a text / JSON value decoded into a variable that held another value before is the value of the text alone
 ReuseFails(e) == IF e.err2 # "" \/ e.errfresh # "" THEN Tag(e.err2 = e.errfresh, "C17.roundtrip")
